@@ -720,6 +720,9 @@ impl Model {
 // Harness scaffolding
 // ---------------------------------------------------------------------------------------------
 pub(super) struct World {
+    /// the record under the old id vanished at the first store call of sync ("expired while we
+    /// were processing"); `db0` already reflects that
+    pub raced: bool,
     pub sh: Shape,
     pub db: &'static RefCell<Db>,
     pub store: &'static SessionStore,
@@ -741,7 +744,7 @@ pub(super) fn any_world_k(cookie: SessionCookieConfig, only: Option<IdK>) -> Wor
     let store: &'static SessionStore = Box::leak(Box::new(SessionStore::new(Mem(db))));
     let allow = cfg.state.missing_server_state == MissingServerState::Allow;
     let db0 = db.borrow().recs;
-    let w = World { sh, db, store, cfg, allow, model: abs(&sh), db0 };
+    let w = World { raced: false, sh, db, store, cfg, allow, model: abs(&sh), db0 };
     vtrace_world(&w);
     w
 }
@@ -976,7 +979,11 @@ pub(super) fn check_synced(w: &World, s: &Session<'_>, ok: bool) {
         // The one documented failure: the id was cycled without ever looking at the state and
         // the record to rename is not there (pinned by the crate's own test
         // `id_cycling_fails_if_the_old_state_record_is_gone_and_it_had_not_been_loaded_previously`).
-        assert!(m.view == View::NotLooked && m.cycled && !db0[0].present, "sync failed although the store answered every call as a plain map");
+        let documented = m.view == View::NotLooked && m.cycled && !db0[0].present;
+        // with the expiry race there is one more: the ttl refresh of a loaded, unchanged record that
+        // is no longer there has nothing to fall back to (no values would be lost: they are unchanged)
+        let refresh_of_vanished = w.raced && w.sh.ssk == SsK::Unchanged && w.sh.idk == IdK::Existing;
+        assert!(documented || refresh_of_vanished, "sync failed although the store answered every call as a plain map");
         assert!(recs_eq(&db.recs, db0), "a failed sync left the store modified");
         return;
     }
@@ -1095,6 +1102,60 @@ fn c11_sync_new() {
     let o = sync_body(IdK::NewlyGenerated);
     kani::cover!(o.ok && o.ssk == SsK::Changed, "new session persisted");
     kani::cover!(o.ok && o.ssk == SsK::DoesNotExist && o.rec0_after, "empty record created by policy");
+}
+
+/// The documented race: "the old state is no longer in the store - e.g. it may have expired while
+/// we were processing. Rare, but possible." The backend drops the record filed under the old id at
+/// the first call sync makes. The values the request ended with must still reach the next request.
+fn sync_race_body(only: IdK) -> SyncOut {
+    let w0 = any_world_k(default_cookie(), Some(only));
+    kani::assume(w0.db0[0].present);
+    w0.db.borrow_mut().expire_o_now = true;
+    let mut s = build(&w0.sh, w0.store, w0.cfg);
+    vtrace_op("sync_with_expiry_race", 0, NONE);
+    let r = s.sync();
+    let ok = r.is_ok();
+    std::mem::forget(r);
+    let fired = w0.db.borrow().calls > 0;
+    let mut db0 = w0.db0;
+    if fired {
+        db0[0] = NOREC;
+    }
+    let w = World { raced: fired, db0, ..w0 };
+    // the in-memory view of an unchanged state that lost its record is stale by construction; the
+    // refinement / INV part of check_synced is only meaningful when the race did not fire or the
+    // state was rewritten; the store expectations hold in every case.
+    check_synced(&w, &s, ok);
+    std::mem::forget(s);
+    SyncOut { ok, ssk: w.sh.ssk, rec0_before: true, rec0_after: w.db.borrow().recs[0].present }
+}
+
+// @tier quick
+// @obligation sync() after cycle_id when the record expires between the request's load and sync's first store call: the values the request ended with are filed under the NEW id (fallback create), nothing is left under the old id, unrelated record untouched
+// @bounds as c11_sync_existing; the backend drops the record under the old id at the first call sync makes
+// @functions Session::sync (ChangeIdError::UnknownId / DeleteError::UnknownId fallbacks), SessionStore::{change_id,create,delete}
+// @timeout 1500
+#[kani::proof]
+#[kani::unwind(4)]
+#[kani::stub(std::fmt::format, fmt_stub)]
+fn c11_sync_race_renamed() {
+    let o = sync_race_body(IdK::ToBeRenamed);
+    kani::cover!(o.ok && o.ssk == SsK::Unchanged, "loaded, unchanged, record gone: recreated under the new id");
+    kani::cover!(o.ok && o.ssk == SsK::Changed, "changed, record gone");
+}
+
+// @tier quick
+// @obligation sync() on a session known under its id when the record expires at sync's first store call: changed values are re-created under the same id (UpdateError::UnknownId fallback), a deletion is a no-op, only the ttl refresh of an unchanged state may fail
+// @bounds as c11_sync_existing; the backend drops the record under the id at the first call sync makes
+// @functions Session::sync (UpdateError::UnknownId fallback), SessionStore::{update,create,update_ttl,delete}
+// @timeout 1500
+#[kani::proof]
+#[kani::unwind(4)]
+#[kani::stub(std::fmt::format, fmt_stub)]
+fn c11_sync_race_existing() {
+    let o = sync_race_body(IdK::Existing);
+    kani::cover!(o.ok && o.ssk == SsK::Changed && o.rec0_after, "changed, record gone: recreated");
+    kani::cover!(!o.ok && o.ssk == SsK::Unchanged, "ttl refresh of a vanished record fails");
 }
 
 /// Decode the cookie value written by the real `Serialize` derive of `WireClientState`
